@@ -89,7 +89,9 @@ size_t mc_block_size(const void *p);    /* usable/allocated size of a heap block
 int  mc_have_asan(void);
 void mc_poll_sanitizers(void);          /* scan stderr growth for UBSan reports (called by the engine after each case) */
 void mc_allow_exit(int on);             /* harnesses that fork children which must really exit */
-/* guarded call from harness code outside the engine's own guard (e.g. positive controls) */
+/* guarded call from harness code outside the engine's own guard (warm-ups, positive controls):
+ * returns 0 if fn returned, else the signal; a crash is recorded as a violation of system 'sysname' */
+int mc_guarded(const char *sysname, const char *what, void (*fn)(void *), void *ctx);
 extern sigjmp_buf mc_jmp;
 extern volatile int mc_protected;
 
